@@ -1155,6 +1155,13 @@ func c11RuleR(w *World, r *Report, subjects []*ssa.Function) {
 		}
 		return false
 	}
+	// failing edges are reported per residual cycle, keyed by the type whose methods recurse (not by function names: a renamed or
+	// split emitter is still the same cycle)
+	type cyc struct {
+		recv, canon string
+		edges       []*redge
+	}
+	cycles := map[string]*cyc{}
 	for _, e := range edges {
 		switch {
 		case e.why != "":
@@ -1162,7 +1169,39 @@ func c11RuleR(w *World, r *Report, subjects []*ssa.Function) {
 		case !reach(e.to, e.from):
 			r.pass(rule, e.key, w.instrPos(e.call), "does not descend by itself, but every cycle through this call contains a strictly descending call")
 		default:
-			r.fail(rule, e.key, w.instrPos(e.call), "recursive call over the packet graph on a cycle that neither descends into an inline object / parse-tree child nor is cut by a visited set: a self- or mutually-referential DSL overflows the stack")
+			canon := fnKey(e.from)
+			for _, f := range subjects {
+				if comp[f] == comp[e.from] && fnKey(f) < canon && reach(e.from, f) && reach(f, e.from) {
+					canon = fnKey(f)
+				}
+			}
+			recv := recvNamedCore(e.from)
+			if recv == "" {
+				recv = e.from.Pkg.Pkg.Name()
+			}
+			k := recv + "|" + canon
+			if cycles[k] == nil {
+				cycles[k] = &cyc{recv: recv, canon: canon}
+			}
+			cycles[k].edges = append(cycles[k].edges, e)
+		}
+	}
+	perRecv := map[string][]*cyc{}
+	for _, k := range sortedKeys(cycles) {
+		c := cycles[k]
+		perRecv[c.recv] = append(perRecv[c.recv], c)
+	}
+	for _, recv := range sortedKeys(perRecv) {
+		for i, c := range perRecv[recv] {
+			key := recv + ": recursion over packet references without a bound"
+			if i > 0 {
+				key += fmt.Sprintf(" #%d", i+1)
+			}
+			var calls []string
+			for _, e := range c.edges {
+				calls = append(calls, e.key+" ("+w.instrPos(e.call)+")")
+			}
+			r.fail(rule, key, w.instrPos(c.edges[0].call), "recursive calls over the packet graph on a cycle that neither descends into an inline object / parse-tree child nor is cut by a visited set: a self- or mutually-referential DSL overflows the stack: "+strings.Join(calls, "; "))
 		}
 	}
 	r.note("recursive call edges examined: %d", nEdges)
@@ -1557,7 +1596,7 @@ func c11RuleL(w *World, r *Report, subjects []*ssa.Function, derefs map[*ssa.Fun
 				}
 				if why := derefUse(w, x, derefs, 0); why != "" {
 					// Packet.LengthField is implied non-nil under the LenAttr test (set together in VisitPacketDefinition)
-					if lk == "Packet.LengthField" && underLenAttrTest(b) {
+					if lk == "Packet.LengthField" && w.underLenAttrTestIP(b, 0) {
 						return
 					}
 					linkBad[lk] = append(linkBad[lk], fnKey(fn)+" "+why+" ("+w.instrPos(ins)+")")
@@ -1851,6 +1890,31 @@ func (w *World) lookupMisuse(lk *ssa.Lookup, derefs map[*ssa.Function]map[int]st
 }
 
 // underLenAttrTest: block dominated by the ok edge of a checked assertion of some field's LenAttr to *LengthFieldAttribute.
+// underLenAttrTestIP: the block is under the LenAttr test, or every call site of its function in the program text is.
+func (w *World) underLenAttrTestIP(blk *ssa.BasicBlock, depth int) bool {
+	if underLenAttrTest(blk) {
+		return true
+	}
+	if depth > 3 {
+		return false
+	}
+	n := w.CallGraph().Nodes[blk.Parent()]
+	if n == nil {
+		return false
+	}
+	real := 0
+	for _, e := range n.In {
+		if e.Caller.Func.Synthetic != "" {
+			continue
+		}
+		real++
+		if e.Site == nil || e.Site.Common().IsInvoke() || !w.underLenAttrTestIP(e.Site.Block(), depth+1) {
+			return false
+		}
+	}
+	return real > 0
+}
+
 func underLenAttrTest(blk *ssa.BasicBlock) bool {
 	fn := blk.Parent()
 	for _, b := range fn.Blocks {
